@@ -307,6 +307,12 @@ func (p *genProfile) genBlock(r *vh.RNG, w *world, st *state.StateDB, res *vh.Re
 		}
 		lines = append(lines, l)
 	}
+	// rarely: forged (really signed) double-sign evidence against a validator other than the chain-keeping key 0
+	if r.Chance(3) {
+		if v, ok := pickVal(func(v valView) bool { return v.key != 0 }); ok {
+			lines = append(lines, fmt.Sprintf("EV %d", v.key))
+		}
+	}
 	_ = common.Address{}
 	return lines
 }
